@@ -48,6 +48,7 @@ def desc_rust(d):
 
 
 def run(ctx, log):
+    progcheck.run_special_constants(ctx, log)
     # the same small programs at every size around the widths the implementation encodes things in (closed-form results)
     progcheck.run_scale(ctx, log, ['constants', 'alias', 'text', 'csc'])
     rng = ctx.rng
